@@ -20,6 +20,7 @@ import (
 const (
 	remAddrA = "10.0.0.1:4000"
 	remAddrB = "10.0.0.2:4000"
+	remAddrC = "10.0.0.3:4000"
 )
 
 type remNode struct {
@@ -65,13 +66,16 @@ func tm(id string) *remote.TestMessage { return &remote.TestMessage{Data: []byte
 
 func engRemote(variants []remParams) vsched.Instance {
 	var p remParams
-	var a, b, b2 *remNode
+	var a, b, b2, c3 *remNode
 	var spawnTargets func(n *remNode)
 	var sends []remSend
 	bLog := func() []Ev {
 		l := append([]Ev{}, b.k.Log...)
 		if b2 != nil {
 			l = append(l, b2.k.Log...)
+		}
+		if c3 != nil {
+			l = append(l, c3.k.Log...)
 		}
 		return l
 	}
@@ -86,8 +90,12 @@ func engRemote(variants []remParams) vsched.Instance {
 		a = newRemNode(remAddrA, (!down && !p.Restart) || p.NoEvents)
 		b = newRemNode(remAddrB, true)
 		spawnTargets = func(n *remNode) {
+			prefix := ""
+			if n.r.Address() == remAddrC {
+				prefix = "c."
+			}
 			for i := 1; i <= 2; i++ {
-				n.k.E.Spawn(n.k.Producer(fmt.Sprintf("t%d", i), func(k *Kit, c *actor.Context, inc int) {
+				n.k.E.Spawn(n.k.Producer(fmt.Sprintf("%st%d", prefix, i), func(k *Kit, c *actor.Context, inc int) {
 					if m, ok := c.Message().(*remote.TestMessage); ok && strings.HasPrefix(string(m.Data), "req") {
 						c.Respond(tm("re:" + string(m.Data)))
 					}
@@ -95,6 +103,10 @@ func engRemote(variants []remParams) vsched.Instance {
 			}
 		}
 		spawnTargets(b)
+		if p.Peers == 2 {
+			c3 = newRemNode(remAddrC, true)
+			spawnTargets(c3)
+		}
 		var actorSender *actor.PID
 		if p.Actor {
 			actorSender = a.k.E.Spawn(a.k.Producer("S", func(k *Kit, c *actor.Context, inc int) {
@@ -118,6 +130,10 @@ func engRemote(variants []remParams) vsched.Instance {
 					id := fmt.Sprintf("%d.%d", t, i)
 					tn := 1 + (t+i)%p.Targets
 					tgt := actor.NewPID(remAddrB, fmt.Sprintf("t/%d", tn))
+					tname := fmt.Sprintf("t%d", tn)
+					if p.Peers == 2 && i%2 == 1 {
+						tgt, tname = actor.NewPID(remAddrC, "t/1"), "c.t1"
+					}
 					var snd *actor.PID
 					if p.WithSender && i%2 == 1 {
 						snd = actor.NewPID(remAddrA, fmt.Sprintf("x/%d", t))
@@ -126,7 +142,7 @@ func engRemote(variants []remParams) vsched.Instance {
 						}
 					}
 					vsched.Touch("sends")
-					sends = append(sends, remSend{id: id, target: fmt.Sprintf("t%d", tn), sender: pidStr(snd)})
+					sends = append(sends, remSend{id: id, target: tname, sender: pidStr(snd)})
 					if snd == nil {
 						a.k.E.Send(tgt, tm(id))
 					} else {
@@ -354,12 +370,12 @@ func down(p remParams) bool { return p.Down() }
 
 func init() {
 	up, dn, upT := rparams.Up, rparams.Dn, rparams.UpLarge
-	Register(&Job{Name: "C17/remote/peer-up", Prop: "C17", Bound: 1, BoundT: 2, Budget: 60, BudgetT: 900, Shards: 10, DumpOutcomes: true,
+	Register(&Job{Name: "C17/remote/peer-up", Prop: "C17", Bound: 1, BoundT: 2, Budget: 60, BudgetT: 900, Shards: 11, DumpOutcomes: true,
 		Desc: "two real engines with real Remote/router/writer/reader over the in-memory transport: 1-2 sender threads x 1-3 messages to 1-2 actors on the peer (with/without sender PID), an actor sender, a request/response pair, 0-2 failing dial attempts inside the writer's retry loop: exactly-once, right target and sender, per-sender order, reply reaches the requester, no unreachable event",
 		Make: func() vsched.Instance { return engRemote(up) }})
 	Register(&Job{Name: "C17/remote/peer-down", Prop: "C17", Bound: 1, BoundT: 2, Budget: 35, BudgetT: 900, Shards: 4, DumpOutcomes: true,
 		Desc: "the peer refuses all 3 dial attempts of the first (and second) connection attempt: RemoteUnreachableEvent once per failed attempt, every message handed to that attempt dead-lettered exactly once (conservation: delivered xor dead-lettered), a send after the episode settled triggers a fresh dial and arrives once the peer is up",
 		Make: func() vsched.Instance { return engRemote(dn) }})
-	Register(&Job{Name: "C17/remote/peer-up-large", Prop: "C17", Tier: "thorough", Bound: 1, BoundT: 2, Budget: 50, BudgetT: 900, Shards: 15, DumpOutcomes: true,
+	Register(&Job{Name: "C17/remote/peer-up-large", Prop: "C17", Tier: "thorough", Bound: 1, BoundT: 2, Budget: 50, BudgetT: 900, Shards: 17, DumpOutcomes: true,
 		Desc: "as peer-up with 3 senders / 3 messages per sender / request + actor sender", Make: func() vsched.Instance { return engRemote(upT) }})
 }
